@@ -111,3 +111,18 @@ func init() {
 		Assumptions: commonAssumptions,
 	})
 }
+
+func init() {
+	addProp(&PropSpec{
+		ID: "C18", Level: "other",
+		Explanation: "Decides, for every driver outside package process (cmd.Cli, main.dev, benchmarks.runTiming, the web server's request handler), that each call starting processes is reached only through the nil edge of the parse error and of Typecheck's error (for the CLI under the SCCP assumption that typechecking is requested), that the error edges end in a no-return call or a return without reaching a start call, and that --noexecute / --execute=false make every start call unreachable (evaluation of the flag conjunctions by constant propagation).",
+		NotDecided:  "that exactly one diagnostic is printed, exit status 0 on success and the absence of a Go panic trace (delegated to C09/C01); log.Fatal's exit status 1 is standard-library semantics",
+		Assumptions: commonAssumptions,
+	})
+	addProp(&PropSpec{
+		ID: "C19", Level: "other",
+		Explanation: "Enumerates and closes the ways one run can reach a later one: no first-party package-level variable (generated parser tables included) is written after initialisation; each parse builds a fresh lexer, scanner and parser value; InitializeProcesses freshly assigns every run-scoped field of the runtime environment before the first spawn; function definitions are never mutated by a run (reads flow only into CopyForm / the judgement / effect-free methods); a rejected program's checker stops instead of continuing on refuted input.",
+		NotDecided:  "equality of outcomes over all histories as such; CPU/timer interference of leftover blocked goroutines with the heartbeat-based quiescence detection of a later run; OS-level state (stdout, log)",
+		Assumptions: commonAssumptions,
+	})
+}
